@@ -34,7 +34,7 @@ var c18published = []c18rule{
 //@   oracle
 //@   covers osm.init
 //@   covers Polygon
-func oracleC18Polygon(sel []int, nNodes int, closed bool, rot int, ruleSel int, valSel int) {
+func oracleC18Polygon(sel []int, nNodes int, closed bool, rot int, ruleSel int, valSel int, annot int) {
 	abs := func(x int) int {
 		if x < 0 {
 			return -x
@@ -76,6 +76,16 @@ func oracleC18Polygon(sel []int, nNodes int, closed bool, rot int, ruleSel int, 
 	}
 	if closed && n > 0 {
 		w.Nodes[n-1].ID = w.Nodes[0].ID
+	}
+	// closedness is a matter of node refs: annotations of the end nodes (version, changeset,
+	// location) do not take part
+	if n > 0 {
+		switch abs(annot) % 3 {
+		case 1:
+			w.Nodes[0].Version, w.Nodes[0].ChangesetID, w.Nodes[0].Lat, w.Nodes[0].Lon = 3, 7, 1.5, 2.5
+		case 2:
+			w.Nodes[n-1].Version, w.Nodes[n-1].Lat = 2, -1.5
+		}
 	}
 	find := func(k string) string {
 		for _, t := range tags {
